@@ -355,7 +355,7 @@ package channel
 // fallback for a reader blocked in a transport read), not through the transport directly
 //@ func (*Channel).Open$1 [C07 C10]
 //@   modifies implClosed, chan(c.Errs), chan(c.done), alloc()
-//@   at call! channel.(*Channel).Close#1 assert #a-failed-open-is-cleaned-up-by-the-channels-own-close reterr != nil && recv == c
+//@   at call! channel.(*Channel).Close#1 assert [C07 C10 C05 C06] #a-failed-open-is-cleaned-up-by-the-channels-own-close reterr != nil && recv == c
 //@   ensures #failed-open-closes-the-transport reterr != nil ==> implClosed
 
 // loginOut: ghost - what the in-channel login read (banner, first prompt; for NETCONF the server hello)
